@@ -251,16 +251,19 @@ class OrderedCadence(Cadence):
 
     def __setitem__(self, i, v):
         self._check(v)
+        # Raises IndexError for out-of-range positions before labelling
+        self.frames[i] = v
         if i < 0:
             i = len(self) + i
         if "order_label" not in v.metadata:
             v.add_metadata({"order_label": self.order[i]})
-        self.frames[i] = v
 
     def insert(self, i, v):
         self._check(v)
+        # Position where list.insert actually places the frame
         if i < 0:
-            i = len(self) + i
+            i = max(len(self) + i, 0)
+        i = min(i, len(self))
         if "order_label" not in v.metadata:
             v.add_metadata({"order_label": self.order[i]})
         self.frames.insert(i, v)
